@@ -198,6 +198,22 @@ func (ex *Exec) evalIdent(name string, env *Env) TV {
 	if t, ok := env.bound[name]; ok {
 		return TV{SV{t}, nil}
 	}
+	if env.fr != nil && env.fr.fn != nil {
+		// a captured variable is held by reference: its name means its value
+		for _, fv := range env.fr.fn.FreeVars {
+			if fv.Name() == name {
+				if pt, ok := fv.Type().Underlying().(*types.Pointer); ok {
+					if pv, ok := env.fr.regs[fv]; ok {
+						saved := ex.checkPanics
+						ex.checkPanics = false
+						v := ex.load(env.fr, env.st, pv, pt.Elem(), token.NoPos)
+						ex.checkPanics = saved
+						return TV{v, pt.Elem()}
+					}
+				}
+			}
+		}
+	}
 	if v, ok := env.vars[name]; ok {
 		return v
 	}
